@@ -16,6 +16,7 @@ EXTENDS Integers, Sequences, FiniteSets, TLC
 
 CONSTANTS Mods,        \* module names
           Order,       \* sequence of all module names: order in which the context's module table is visited
+          Collide,     \* TRUE: the module names share one bucket of the table, which is then visited in registration order (S.tord)
           Hooks,       \* Hooks[m] \subseteq {"eval", "start", "stop"}
           Flags,       \* Flags[m] = sequence of flag sets (each \subseteq {"REPLACE", "PERSIST", "DENYCTX", "DENYPUB", "DENYSUB"}) that a
                        \* registration under name m may choose from (ModRegister(m, i) uses Flags[m][i])
@@ -73,8 +74,11 @@ Ret(s, v) == [s EXCEPT !.ret = v]
 
 Registered(s) == {m \in Mods : s.mod[m].reg}        \* present in the context's module table
 Active(s, m) == s.mod[m].st \in {"running", "paused"}
-SeqOf(s, P(_)) == SelectSeq(Order, P)
-RegSeq(s) == SelectSeq(Order, LAMBDA m : m \in Registered(s))
+\* the context's module table in the order in which an iteration visits it: fixed by the names' hashes, or - for names that
+\* share a bucket - the order of registration (an insertion goes to the end of the chain, a removal shifts the rest back)
+RegSeq(s) == IF Collide THEN s.tord ELSE SelectSeq(Order, LAMBDA m : m \in Registered(s))
+TableAdd(s, m) == IF Collide THEN [s EXCEPT !.tord = Append(@, m)] ELSE s
+TableRm(s, m) == IF Collide THEN [s EXCEPT !.tord = SelectSeq(@, LAMBDA x : x # m)] ELSE s
 
 \* old: object of a released context; subs: set of [pat, pr] (priority "L" | "N" | "H"), one per pattern;
 \* bq/blen: events held back by batching and the configured batch size; stash; hs: handlers installed with become (top first)
@@ -102,6 +106,7 @@ Init0 == [ctx |-> Ctx0,
           dead |-> {},                                 \* watched processes (keys) that have exited (for good)
           xdue |-> {},                                 \* <<m, "path", key>> a change of the watched path is pending in m's watch descriptor;
                                                        \* <<m, "task", key>> the task has finished and notified, its event was not consumed yet
+          tord |-> <<>>,                               \* (Collide only) registered modules in registration order
           trun |-> {},                                 \* <<m, key>>: tasks whose thread is executing the user's function
           errno |-> 0]
 \* canned set-ups (the driver executes the same public calls before every program and checks it arrived here):
@@ -110,6 +115,7 @@ Running0(m) == [Mod0 EXCEPT !.st = "running", !.reg = TRUE, !.h = 1, !.fl = Flag
 InitOf(x) == IF x = "" THEN Init0
              ELSE [Init0 EXCEPT !.ctx = [Ctx0 EXCEPT !.st = "looping"],
                                 !.run = Cardinality(Mods),
+                                !.tord = IF Collide THEN Order ELSE <<>>,
                                 !.mod = [m \in Mods |-> Running0(m)]]
 Init == S = InitOf(Setup)
 
@@ -135,7 +141,7 @@ SubPats(s, r) == {q.pat : q \in s.mod[r].subs}
 \* fetch_sub(): the literal subscription if there is one, else the (single) matching regular expression
 SubFor(s, r, topic) == IF topic \in SubPats(s, r) THEN CHOOSE q \in s.mod[r].subs : q.pat = topic
                        ELSE CHOOSE q \in s.mod[r].subs : Matches(q.pat, topic)
-Subscribers(s, topic) == SelectSeq(Order, LAMBDA r : Active(s, r) /\ \E q \in s.mod[r].subs : Matches(q.pat, topic))
+Subscribers(s, topic) == SelectSeq(RegSeq(s), LAMBDA r : Active(s, r) /\ \E q \in s.mod[r].subs : Matches(q.pat, topic))
 \* append a copy to r's mailbox if there is room (a full pipe drops the copy)
 RECURSIVE Deliver(_, _, _)
 Deliver(s, rs, msg) ==      \* rs: sequence of recipients; a message with a topic is stamped with each recipient's matching subscription
@@ -148,7 +154,7 @@ Deliver(s, rs, msg) ==      \* rs: sequence of recipients; a message with a topi
            THEN Deliver([s EXCEPT !.mod[r].pipe = Append(s.mod[r].pipe, m1)], Tail(rs), msg)
            ELSE Deliver([s EXCEPT !.pay = Release1(s.pay, msg.p)], Tail(rs), msg)
 
-AllActive(s) == SelectSeq(Order, LAMBDA r : Active(s, r))
+AllActive(s) == SelectSeq(RegSeq(s), LAMBDA r : Active(s, r))
 
 \* library-generated notification (never has a payload)
 Sys(s, topic, from) == Deliver(s, Subscribers(s, topic), Msg(0, from, topic, TRUE))
@@ -254,7 +260,7 @@ Step(s) ==
             IF r.mod[m].st \in {"zombie", "none"} THEN Ret(r, NEG)                  \* deregistered inside on_stop
             ELSE Ret(Sys(r, "MOD_STOPPED", m), 0)
       [] f.k = "dereg" ->        \* mod_deregister(&m, from_user = f.a): removed from the table first, then stopped (whatever its state)
-            Push(Push([r EXCEPT !.mod[m].reg = FALSE], Fr("dereg2", m, f.a, 0)), Fr("stop", m, TRUE, 0))
+            Push(Push(TableRm([r EXCEPT !.mod[m].reg = FALSE], m), Fr("dereg2", m, f.a, 0)), Fr("stop", m, TRUE, 0))
       [] f.k = "dereg2" ->
             \* restarted by its own stop callback: stopped again until it stays stopped, then ZOMBIE
             IF r.mod[m].st \in {"running", "paused"} THEN Push(Push(r, f), Fr("stop", m, TRUE, 0))
@@ -363,7 +369,7 @@ Step(s) ==
                  IN IF x \notin Registered(r) THEN rest
                     ELSE Push(rest, Fr("dereg", x, FALSE, 0))
       [] f.k = "rereg" ->        \* m_mod_register() continuing after the replaced module was deregistered
-            Ret([r EXCEPT !.mod[m] = NewMod(m, f.a)], 0)
+            Ret(TableAdd([r EXCEPT !.mod[m] = NewMod(m, f.a)], m), 0)
 
 RECURSIVE Run(_)
 Run(s0) == LET s == Settle(s0) IN
@@ -444,7 +450,7 @@ ModRegister(m, i) ==
               ELSE IF "PERSIST" \in S.mod[m].fl /\ S.ctx.st = "looping" THEN Refuse(NEG)
               \* the replaced module is deregistered first (the program drops its old reference afterwards)
               ELSE Do(Push(Push(S, Fr("rereg", m, i, 0)), Fr("dereg", m, FALSE, 0)))
-       ELSE Handle(m) = FALSE /\ Do([S EXCEPT !.mod[m] = NewMod(m, i), !.ret = 0])
+       ELSE Handle(m) = FALSE /\ Do(TableAdd([S EXCEPT !.mod[m] = NewMod(m, i), !.ret = 0], m))
 
 ModDeregister(m) ==
     /\ Can("ModDeregister") /\ m \in Targets /\ Handle(m)
